@@ -210,7 +210,7 @@ def read_values(heap, lst):
 
 def r5_edits(rep, src):
     layouts = [('V S W V S W V', False), ('V S V', False), ('W V S W V', False), ('W V P V P V', True), ('V P V', True), ('W V', False),
-               ('W V S N C K V S N K V', False), ('V S N C K V', False), ('W V S W V S', False)]
+               ('W V S N C K V S N K V', False), ('V S N C K V', False), ('W V S W V S', False), ('P N K V P V', True), ('P N C K V N K V', True)]
     m_site = '%s:%s' % (PM, CLS)
     n = 0
     for lay, space_sep in layouts:
@@ -377,14 +377,44 @@ def r2_r3_tokenizers(rep, src):
     alpha = rx.alphabet('str')
     nonl = rx.regex_lang(r'[^\n]*', 0, 'fullmatch', alpha=alpha)
     wsonly = rx.regex_lang(r'\s*', 0, 'fullmatch', alpha=alpha)
-    for rname, fname, must_cover in (('_RE_WHITESPACE_SEPARATED_WORD_LIST', 'whitespace_split_tokenizer', nonl.minus(wsonly)),
+    for rname, fname, must_cover in (('_RE_WHITESPACE_SEPARATED_WORD_LIST', 'whitespace_split_tokenizer', nonl),
                                      ('_RE_COMMA_SEPARATED_WORD_LIST', 'comma_split_tokenizer', nonl)):
         r = src.regex(TK, rname)
         rep.saw_regex('tokens:' + rname)
         f = src.func('%s:%s' % (TK, fname))
         rep.saw_func(f)
         star = rx.regex_lang('(?:%s)*' % r['pattern'], r['flags'], 'fullmatch', alpha=alpha)
-        w = must_cover.not_subset_witness(star)
+        # lines handled by the function: by the finditer loop (concatenations of matches) or by a special case in front
+        # of it that emits the whole line as one token
+        from .. import paths as P0
+        vparam = f.params()[0]
+        anyl = rx.regex_lang('(?s:.*)', 0, 'fullmatch', alpha=alpha)
+
+        def lh(en, st_, path):
+            if isinstance(st_, ast.For) and isinstance(st_.iter, ast.Call) and isinstance(st_.iter.func, ast.Attribute) and st_.iter.func.attr == 'finditer' \
+                    and [norm(a_) for a_ in st_.iter.args] == [vparam]:
+                path.events.append(('finditer', st_, st_))
+                return [path]
+            return None
+        handled = anyl.complement()
+        for p_ in P0.function_paths(f.node, P0.Folder(), lh):
+            if p_.outcome[0] == 'raise':
+                continue
+            lang = anyl
+            for t_, pol in p_.conds:
+                pl = strlang.pred_lang(t_, vparam, alpha)
+                lang = lang.intersect(pl if pol else pl.complement())
+            if any(e_[0] == 'finditer' for e_ in p_.events):
+                handled = handled.union(lang.intersect(star))
+                continue
+            ys_ = [e_[1].value for e_ in p_.events if e_[0] == 'effect' and isinstance(e_[1], ast.Expr) and isinstance(e_[1].value, ast.Yield)]
+            whole = len(ys_) == 1 and isinstance(ys_[0].value, ast.Call) and len(ys_[0].value.args) == 1 \
+                and norm(ys_[0].value.args[0]) in (vparam, 'sys.intern(%s)' % vparam)
+            if whole:
+                handled = handled.union(lang)
+            elif not ys_:
+                handled = handled.union(lang.intersect(rx.regex_lang('', 0, 'fullmatch', alpha=alpha)))
+        w = must_cover.not_subset_witness(handled)
         if w is not None:
             rep.fail('C11.R3', f.site, 'consecutive matches cover the whole value line', 'finditer(%s) cannot tile the line %r: characters between matches are skipped '
                      '(the length check then rejects the field, or text is lost)' % (rname, w), detail={'witness': w}, where=f.where)
